@@ -30,7 +30,11 @@ RULE = ('three ways of loading (55% file, 25% custom handle, 20% direct dictiona
         'populate_world_from_dict with real classes.  DIRECT: populate_world_from_dict called '
         '1-2 times on a World with dispatching enabled or disabled (second call = world that '
         'already has entities/processors); arguments include real objects and strings of all '
-        'marker forms (never substituted).  distinct = different (case, trace); '
+        'marker forms (never substituted).  A handle is loaded 1-3 times (half of the cases '
+        'more than once): h() with h.clear() in between, or h.load() directly; every load is '
+        'observed separately (World identity, fresh instances, ids, callbacks, marks), the '
+        'resource labels are taken at the end so that a resource loaded twice is seen.  '
+        'distinct = different (case, trace); '
         'non-trivial = loaded, >= 2 constructor calls and >= 1 exact reference')
 TRUSTED = [
     'Coq 8.16.1 kernel + vm_compute (evaluation of C15_verdict on the observed loads)',
@@ -274,6 +278,10 @@ def gen_case(rng, abort=False, kind=None):
         r = rng.random()
         kind = 'file' if r < 0.55 else 'handle' if r < 0.8 else 'direct'
     case = dict(ns=ns, tree=tree, depth=rng.randint(1, 3), kind=kind, tags=tags)
+    if kind != 'direct':
+        # h() / h.clear(); h() ('call') or h.load() directly ('load'), 1-3 times
+        case['loads'] = (['call'] if rng.random() < 0.5 else
+                         [rng.choice(['call', 'load']) for _ in range(rng.randint(2, 3))])
     if kind == 'file':
         case['desc'] = _gen_desc(rng, ns, tree, tags, rng.sample(procs, rng.randint(0, len(procs))), ids)
         descs = [case['desc']]
@@ -514,61 +522,83 @@ def run(case):
         else:
             wh = None
         state['wh'] = wh
-        try:
-            if kind == 'direct':
-                world = desper.World()
-                world.dispatch_enabled = case['enabled']
-                state['world'] = world
-                for st in case['steps']:
-                    desper.populate_world_from_dict(world, pydict(st[1]))
-            else:
-                world = wh()
-        except Exception as ex:
-            return {'err': type(ex).__name__, 'nconstr': len(log)}
-        state['world'] = world
-        # "the loaded resource" of a handle is the value the handle holds now
+        worlds = []           # World instances in order of first appearance
+        results = []
+        ops = ['call'] if kind == 'direct' else case.get('loads', ['call'])
+        for n, op in enumerate(ops):
+            del log[:], cbs[:], marks[:]
+            inst.clear()
+            state.pop('world', None)
+            try:
+                if kind == 'direct':
+                    world = desper.World()
+                    world.dispatch_enabled = case['enabled']
+                    state['world'] = world
+                    for st in case['steps']:
+                        desper.populate_world_from_dict(world, pydict(st[1]))
+                elif op == 'load':
+                    world = wh.load()            # the loading code itself, no cache
+                else:
+                    if wh.cached:
+                        wh.clear()
+                    world = wh()
+            except Exception as ex:
+                results.append({'world': n, 'err': type(ex).__name__, 'nconstr': len(log)})
+                continue
+            state['world'] = world
+            serial = next((k for k, x in enumerate(worlds) if x is world), len(worlds))
+            if serial == len(worlds):
+                worlds.append(world)
+            out = {'world': serial}
+            out['raw'] = [[s, a, kw] for s, a, kw in log]
+            procs = []
+            for p in world.processors:
+                if type(p) is desper.OnUpdateProcessor:
+                    procs.append(-1)
+                elif type(p) is desper.CoroutineProcessor:
+                    procs.append(-2)
+                else:
+                    procs.append(inst.get(id(p), -99))
+            out['procs'] = procs
+            ents = []
+            for e in world.entities:
+                cs = sorted(inst.get(id(c), -99) for c in world.get_components(e))
+                ents.append([_canon(e, ident), cs])
+            ents.sort(key=lambda x: x[1][0] if x[1] else 10 ** 9)
+            out['ents'] = ents
+            en = world.dispatch_enabled
+            out['enabled'] = en if en is True or en is False else True
+            try:
+                world.dispatch_enabled = True
+            except Exception as ex:
+                cbs.append([-8, 0, ['n'], False])
+            # set iteration order inside one on_world_load dispatch is open
+            canon_cbs, runl = [], []
+            for c in cbs:
+                if c[1] == 1:
+                    runl.append(c)
+                else:
+                    canon_cbs += sorted(runl, key=lambda x: x[0])
+                    runl = []
+                    canon_cbs.append(c)
+            canon_cbs += sorted(runl, key=lambda x: x[0])
+            out['cbs'] = canon_cbs
+            out['marks'] = [[k, h is wh and w is world] for k, h, w in marks]
+            results.append(out)
+        # "the loaded resource" of a handle is the value the handle holds now: a
+        # resource that was loaded again for a later load is not it any more
         for i, (p, k) in enumerate(case['tree']):
             h = root.get(p)
             if k == 'h' and h.cached:
                 ident[id(h())] = ['KRes', 100 + i]
-        out = {}
-        out['constr'] = [[s, [_canon(x, ident) for x in a],
-                          [[k, _canon(v, ident)] for k, v in kw.items()]] for s, a, kw in log]
-        procs = []
-        for p in world.processors:
-            if type(p) is desper.OnUpdateProcessor:
-                procs.append(-1)
-            elif type(p) is desper.CoroutineProcessor:
-                procs.append(-2)
-            else:
-                procs.append(inst.get(id(p), -99))
-        out['procs'] = procs
-        ents = []
-        for e in world.entities:
-            cs = sorted(inst.get(id(c), -99) for c in world.get_components(e))
-            ents.append([_canon(e, ident), cs])
-        ents.sort(key=lambda x: x[1][0] if x[1] else 10 ** 9)
-        out['ents'] = ents
-        en = world.dispatch_enabled
-        out['enabled'] = en if en is True or en is False else True
-        try:
-            world.dispatch_enabled = True
-        except Exception as ex:
-            cbs.append([-8, 0, ['n'], False])
-        # set iteration order inside one on_world_load dispatch is open
-        canon_cbs, runl = [], []
-        for c in cbs:
-            if c[1] == 1:
-                runl.append(c)
-            else:
-                canon_cbs += sorted(runl, key=lambda x: x[0])
-                runl = []
-                canon_cbs.append(c)
-        canon_cbs += sorted(runl, key=lambda x: x[0])
-        out['cbs'] = canon_cbs
-        out['marks'] = [[k, h is wh and w is world] for k, h, w in marks]
-        out['loads'] = [[i, root.get(p).loads] for i, (p, k) in enumerate(case['tree']) if k == 'h']
-        return out
+        for out in results:
+            if 'raw' in out:
+                out['constr'] = [[s, [_canon(x, ident) for x in a],
+                                  [[k, _canon(v, ident)] for k, v in kw.items()]]
+                                 for s, a, kw in out.pop('raw')]
+        return {'loads': results,
+                'res_loads': [[i, root.get(p).loads] for i, (p, k) in enumerate(case['tree'])
+                              if k == 'h']}
     finally:
         shutil.rmtree(tmp, ignore_errors=True)
         for k in [k for k in sys.modules if k == MOD or k.startswith(MOD + '.')]:
@@ -742,9 +772,17 @@ def enc_obs(trace, kt):
                                              lst(ents), b(trace['enabled']), lst(cbs), lst(marks))
 
 
+def _loads(trace):
+    return trace.get('loads') or []
+
+
 def encode(case, trace):
     kt = key_table(case)
-    return '(Case %s %s %s)' % (enc_env(case, kt), enc_load(case, kt), enc_obs(trace, kt))
+    if 'loads' not in trace:             # hang / crash: never accepted
+        obs = ['(0, %s)' % REJECT]
+    else:
+        obs = ['(%s, %s)' % (z(t['world']), enc_obs(t, kt)) for t in trace['loads']]
+    return '(Case %s %s %s)' % (enc_env(case, kt), enc_load(case, kt), lst(obs))
 
 
 # ------------------------------------------------------------------ evidence
@@ -759,7 +797,8 @@ def _dicts(case):
 def nontrivial(case, trace):
     t = case.get('tags', {})
     refs = t.get('exact_obj', 0) + t.get('exact_res', 0) + t.get('exact_handle', 0)
-    return 'constr' in trace and len(trace['constr']) >= 2 and refs >= 1
+    ls = _loads(trace)
+    return bool(ls) and 'constr' in ls[0] and len(ls[0]['constr']) >= 2 and refs >= 1
 
 
 def stats(cases, traces):
@@ -783,10 +822,23 @@ def stats(cases, traces):
     out['steps_of_custom_loads'] = steps
     out['custom_pass_lists'] = passes
     out['detached_handles'] = sum(1 for c in cases if c['depth'] == 0)
-    out['loads_aborted'] = sum(1 for t in traces if 'err' in t)
-    out['constructor_calls'] = sum(len(t.get('constr', [])) for t in traces)
-    out['entities'] = sum(len(t.get('ents', [])) for t in traces)
-    out['callbacks'] = sum(len(t.get('cbs', [])) for t in traces)
+    every = [t for tr in traces for t in _loads(tr)]
+    out['loads_per_case'] = {}
+    for tr in traces:
+        n = len(_loads(tr))
+        out['loads_per_case'][n] = out['loads_per_case'].get(n, 0) + 1
+    ops = {}
+    for c in cases:
+        if c.get('kind', 'file') != 'direct':
+            for o in c.get('loads', ['call']):
+                ops[o] = ops.get(o, 0) + 1
+    out['load_operations'] = ops
+    out['resources_loaded_more_than_once'] = sum(1 for tr in traces
+                                                 for i, n in tr.get('res_loads', []) if n > 1)
+    out['loads_aborted'] = sum(1 for t in every if 'err' in t)
+    out['constructor_calls'] = sum(len(t.get('constr', [])) for t in every)
+    out['entities'] = sum(len(t.get('ents', [])) for t in every)
+    out['callbacks'] = sum(len(t.get('cbs', [])) for t in every)
     ids = dict(absent=0, null=0, int=0, str=0)
     nproc = 0
     for c in cases:
@@ -818,6 +870,11 @@ def _desc_getters(case):
 
 
 def shrink(case):
+    for n in range(len(case.get('loads', []))):
+        if len(case['loads']) > 1:
+            c = _copy(case)
+            del c['loads'][n]
+            yield c
     for n in range(len(case.get('steps', []))):
         c = _copy(case)
         del c['steps'][n]
